@@ -409,16 +409,22 @@ def build(spec, explicit=False, allow_forbidden=False):
                         off = sc['offset'] // 8 if d['kind'] == 'digital' else sc['offset']
                         if off + tsize > width:
                             raise SpecError('scaler outside row')
-                        if d['kind'] == 'digital' and sc['type'] != 'u8':
-                            raise SpecError('digital lines only on u8')
                         b = bufs[sc['buffer']]
                         col = bytearray()
                         for r in range(rows):
                             col += b[r * width + off:r * width + off + tsize]
                         col = bytearray(fmt.from_endian(sc['type'], bytes(col), e))
                         if d['kind'] == 'digital':
+                            # the line is bit (offset mod 8) of the value of the scaler's declared type found at byte
+                            # offset // 8, decoded in the segment's byte order
                             bit = sc['offset'] % 8
-                            col = bytearray(((x >> bit) & 1) for x in col)
+                            if tsize == 1:
+                                col = bytearray(((x >> bit) & 1) for x in col)
+                            else:
+                                sz = tsize
+                                col = bytearray(b''.join(
+                                    ((int.from_bytes(col[a:a + sz], 'little') >> bit) & 1).to_bytes(sz, 'little')
+                                    for a in range(0, len(col), sz)))
                         ent = ch.scalers.get(sc['id'])
                         if ent is None:
                             ent = ch.scalers[sc['id']] = [sc['type'], bytearray()]
